@@ -106,6 +106,38 @@ Mutants(T, e, depth) ==
     ELSE Reorders(e) \cup Dups(T, e) \cup Widens(e) \cup HiBits(T, e) \cup Unknowns(T, e) \cup Defaults(T, e)
          \cup BigRecodes(T, e) \cup Drops(e) \cup Splits(T, e) \cup WrongWire(T, e) \cup Nested(T, e, depth)
 
+-----------------------------------------------------------------------------
+(* Boundary mutants: padding sized by the specification's own size rule.  For a size check `d` and canonical size S   *)
+(* the rule accepts up to S + S*d/100 bytes; the mutants land exactly on that limit, one and two bytes beyond, and at  *)
+(* a few points up to 1.3 x the tolerated drift beyond (incl. S*d/(100-d), the limit of a "percent of the received    *)
+(* buffer" reading of the rule), so that the acceptance boundary itself is pinned, not only one point on each side.  *)
+PadP(n) == [id |-> -2, len |-> n, b |-> <<>>]           \* n padding bytes (the harness writes 0x55)
+\* unknown-field records of exactly `need` bytes in total (<<>> if impossible)
+PadRecs(T, need) ==
+    LET u  == UnknownFn(T)
+        N1 == {n \in 0..need : TagW(u, 2) + VW(n) + n = need}
+        N2 == {n \in 0..need : TagW(u, 2) + VW(n) + n + TagW(u, 0) + 1 = need}
+    IN  IF N1 # {} THEN <<MkBytes(u, PadP(CHOOSE n \in N1 : TRUE))>>
+        ELSE IF N2 # {} THEN <<MkBytes(u, PadP(CHOOSE n \in N2 : TRUE)), MkVar(u, 0, 1, 0)>>
+        ELSE <<>>
+\* the same amount as an overwritten duplicate of the first non-repeated bytes field (the last occurrence wins)
+DupPad(T, e, need) ==
+    LET I == {i \in Idx(e) : KnownFn(T, e[i].fn) /\ e[i].wt = 2 /\ ~e[i].m /\ e[i].p.id > 0
+                              /\ FieldOfRec(T, e[i]).kind = "bytes" /\ ~FieldOfRec(T, e[i]).rep}
+    IN  IF I = {} THEN {}
+        ELSE LET i == CHOOSE j \in I : \A k \in I : j <= k
+                 N == {n \in 0..need : TagW(e[i].fn, 2) + VW(n) + n = need}
+             IN  {InsertAt(e, i, MkBytes(e[i].fn, PadP(n))) : n \in N}
+BoundaryExtras(S, d) ==
+    LET m == (S * d) \div 100 IN
+    {x \in {m - 1, m, m + 1, m + 2, m + m \div 20 + 1, m + m \div 10, m + m \div 10 + 1, m + m \div 8, m + (3 * m) \div 10}
+            \cup (IF d < 100 THEN {(S * d) \div (100 - d), (S * d) \div (100 - d) + 1} ELSE {}) : x >= 2}
+Boundary(T, e, d) ==
+    LET S == EncSize(e) IN
+    ({e \o PadRecs(T, x) : x \in BoundaryExtras(S, d)}
+     \cup UNION {DupPad(T, e, x) : x \in {y \in BoundaryExtras(S, d) : y <= (S * d) \div 100 + 1 \/ y = (S * d) \div (100 - IF d < 100 THEN d ELSE 0)}})
+    \ {e}
+
 \* shortening steps followed by any step: the slack a shorter encoding leaves under the size check
 Shorter(T, e) == {x \in Drops(e) \cup BigRecodes(T, e) : Decode(T, x).ok /\ Decode(T, x).val = Decode(T, e).val
                                                          /\ EncSize(x) < EncSize(e)}
